@@ -14,9 +14,15 @@ Go code modelled (one model step = one critical section of `c.mux`, or one runti
   inactive) and `cb i` (that goroutine gets `c.mux` inside `closeWithError(errXTimeout)`). Between the two any
   other critical section may run, so a renewal or a clear racing the callback is representable. `Reset` re-arms a
   timer whether or not it has fired; `Stop`/`Reset` do not recall a callback that has already been started.
+* `DialAsyncTimeout` (engine_unix.go): the dial timer is the *write* timer (`dial n`), armed with `ErrDialTimeout`;
+  the connect-success wrapper clears it with `SetWriteDeadline(time.Time{})` (`connected`). Which error the timer's
+  closure carries is tracked by the driver, not by the model.
 * HTTP keep-alive (`engine.go` AddConn*: `SetReadDeadline(now+KeepaliveTime)`; `processor.go` flushResponse: the
   same after every response), the HTTP `WriteTimeout` (`OnComplete`: `SetWriteDeadline(now+WriteTimeout)`), WS
   keep-alive (`upgrader.go:540`, `conn.go:234`): the relative ops `ka n` / `wto n`.
+
+(The write-path owner proves the same `Write/Writev/flush` tail steps on the full write-path model:
+`Properties/ConnTimer.lean`, `ConnFull.timer_cleared_by_write/_writev/_flush`, `close_stops_timer`.)
 
 The clock is logical (`tick n`). Ghost state (never read by the step function's control flow): `T.f`, the deadline
 *in force* according to the property's wording (set/renew ⇒ that time; clear, a write or flush that empties the
@@ -91,6 +97,9 @@ inductive Op
   | clearBoth                    -- SetDeadline(time.Time{})
   | ka (n : Nat)                 -- keep-alive renewal: SetReadDeadline(now + n)
   | wto (n : Nat)                -- HTTP WriteTimeout / WS HandshakeTimeout: SetWriteDeadline(now + n)
+  | dial (n : Nat)               -- DialAsyncTimeout: setDeadline(&c.wTimer, ErrDialTimeout, now + n) — the dial timer
+                                 -- lives in the WRITE timer
+  | connected                    -- the connect-success wrapper: SetWriteDeadline(time.Time{}) must clear it
   | write (k : K)                -- Write / Writev
   | flush (k : K)                -- poller: flush()
   | close                        -- Close / CloseWithError / poller closeWithError(EOF)
@@ -164,6 +173,8 @@ def step (g : Cfg) (s : St) : Op → Option St
   | .clearBoth => some (if s.closed then s else stop (stop s .r) .w)
   | .ka n => some (if s.closed then s else arm s .r (s.now + n))
   | .wto n => some (if s.closed then s else arm s .w (s.now + n))
+  | .dial n => some (if s.closed then s else arm s .w (s.now + n))
+  | .connected => some (if s.closed then s else stop s .w)
   | .write k => some (stepWrite s k)
   | .flush k => some (stepFlush g s k)
   | .close => some (closeWith s .user none)
